@@ -310,6 +310,30 @@ def check_cli(case, ctx: Ctx):
             check(np.array_equal(n1, n2), lambda: f"cooler balance -p {case['nproc']} -c {case['chunksize']}: NaN set of the stored column differs from the library call at bins {np.flatnonzero(n1 != n2)[:5].tolist()}")
             check(np.allclose(stored[~n1], base_w[~n1], rtol=1e-8, atol=0),
                   lambda: f"cooler balance -p {case['nproc']} -c {case['chunksize']}: stored weights differ from the library call, max rel {np.max(np.abs(stored[~n1] - base_w[~n1]) / np.abs(base_w[~n1])):.3g}")
+            # the statistics travel with the stored column (attributes of bins/<name>)
+            import h5py
+
+            with h5py.File(path, "r") as f:
+                at = dict(f[case["group"]]["bins"][case["name"]].attrs)
+            for key in ("converged", "var", "scale", "tol"):
+                check(key in at, lambda: f"cooler balance stored no {key!r} attribute with the weight column (has {sorted(at)})")
+            check(np.array_equal(np.atleast_1d(at["converged"]), np.atleast_1d(base_stats["converged"])),
+                  lambda: f"stored 'converged' {at['converged']} differs from the library call {base_stats['converged']}")
+            for key in ("var", "scale"):
+                a_, b_ = np.atleast_1d(np.asarray(at[key], dtype=float)), np.atleast_1d(np.asarray(base_stats[key], dtype=float))
+                check(a_.shape == b_.shape and np.allclose(a_, b_, rtol=1e-8, atol=1e-300, equal_nan=True),
+                      lambda: f"stored {key!r} {a_} differs from the library call {b_}")
+            check(float(at["tol"]) == o["tol"], f"stored 'tol' {at['tol']} but --tol {o['tol']}")
+            # --stdout prints the same weights (%g, empty for NaN) and stores nothing
+            rc5, txt5, exc5 = run_cli([*[a for a in args if a not in ("--name", case["name"])], "--name", "printed_only", "--stdout"])
+            check(rc5 == 0 and exc5 is None, f"cooler balance --stdout failed: exit {rc5} {exc5!r}")
+            lines5 = txt5.split("\n")
+            lines5 = lines5[:-1] if lines5 and lines5[-1] == "" and len(lines5) == n + 1 else lines5
+            check(len(lines5) == n, lambda: f"cooler balance --stdout printed {len(lines5)} lines for {n} bins: {lines5[:4]}")
+            printed = np.array([float(x) if x.strip() else np.nan for x in lines5])
+            check(np.array_equal(np.isnan(printed), n2) and np.allclose(printed[~n2], base_w[~n2], rtol=2e-5, atol=0),
+                  lambda: f"cooler balance --stdout printed {printed[:6]}, the library call returns {base_w[:6]}")
+            check("printed_only" not in cooler.Cooler(uri).bins().columns, "cooler balance --stdout also stored the column")
         # the store= route of the API writes exactly what it returns, and balanced reads use it
         w4, _ = call("balance_cooler(store=True)", c10.run_balance, clr, o, chunksize=case["chunksize"], store=True, store_name="stored_by_api")
         col = cooler.Cooler(uri).bins()["stored_by_api"][:].to_numpy(dtype=float)
